@@ -539,6 +539,35 @@ Proof.
     exists ex_fields, "book.request_id". split; [reflexivity|]. split; [now left|]. apply Hbad. cbn. auto.
 Qed.
 
+Definition ex_methods_singular : list mdesc :=
+  [mkMethod "pkg.Lib.CreateBook" false false (Some [f_name; f_req_id; f_opt_id; f_count; f_plain]);
+   mkMethod "pkg.Lib.GetBook" false false (Some [f_name])].
+
+(* non-vacuity of validation_iff_spec: a table without repeated UUID4 strings, an accepted list, a rejected list *)
+Example ex_singular :
+  methods_wf ex_methods_singular /\ no_repeated_uuid_strings ex_methods_singular /\
+  enforce ex_methods_singular ex_settings = Accepted /\
+  enforce ex_methods_singular [mkSetting "pkg.Lib.CreateBook" ["note"]] = Rejected [("pkg.Lib.CreateBook", SFields [("note", FNotUuid4)])].
+Proof.
+  split; [|split; [|split; reflexivity]].
+  - split.
+    + cbn. repeat constructor; cbn; intuition discriminate.
+    + intros m fs Hin Hfs. cbn in Hin.
+      destruct Hin as [<-|[<-|[]]]; cbn in Hfs; inversion Hfs; subst; unfold fields_uniq; cbn;
+        repeat constructor; cbn; intuition discriminate.
+  - intros m fs f Hin Hfs Hf _ _. cbn in Hin.
+    destruct Hin as [<-|[<-|[]]]; cbn in Hfs; inversion Hfs; subst; cbn in Hf;
+      repeat (destruct Hf as [<-|Hf]; [reflexivity|]); inversion Hf.
+Qed.
+
+Example ex_population_hyps :
+  Forall (fun u : string => u <> "") ["u1"; "u2"] /\
+  find_field "request_id" ex_fields = Some f_req_id /\ rf_repeated f_req_id = false /\
+  left_unset_or_empty f_req_id [("name", VStr "x")] = true /\
+  left_unset_or_empty f_req_id [("request_id", VStr "mine")] = false /\
+  left_unset_or_empty f_opt_id [("opt_id", VStr "")] = false.
+Proof. repeat split; repeat constructor; discriminate. Qed.
+
 Example ex_population :
   let fs := ex_fields in
   let bs := [mkBlock (GNotTruthy "request_id") "request_id"; mkBlock (GNotIn "opt_id") "opt_id"] in
